@@ -320,7 +320,7 @@ func (g *Generator) getMapValueSchema(field *protogen.Field) *base.DynamicValue[
 	valueField := getMapValueField(field)
 	if valueField == nil {
 		// Couldn't determine value type, allow any type
-		return &base.DynamicValue[*base.SchemaProxy, bool]{B: true}
+		return &base.DynamicValue[*base.SchemaProxy, bool]{N: 1, B: true}
 	}
 
 	// Check if value is a message with an unwrap field
